@@ -43,6 +43,10 @@ func EnumHistories() []History {
 			{Op: OpEvent, Period: 0, N: 1, K: 1},
 		}
 	}
+	// for the start-failure broadcast with two subscribers on the failing trigger
+	prefixBlocked := append(append([]Step(nil), prefix...),
+		Step{Op: OpSubscribe, Sub: 3, Conn: 3, Key: 2, StartMode: StartBlock},
+		Step{Op: OpSubscribe, Sub: 4, Conn: 2, Key: 2, Filter: FIn0})
 	type parent struct {
 		st     Step
 		period int    // period created by the parent (subscribe parents), else -1
@@ -61,6 +65,10 @@ func EnumHistories() []History {
 		{Step{Op: OpHeartbeat, Period: 0, Split: &Split{Point: PtHeartbeat, Target: 1}}, -1, prefixHB(false)},
 		{Step{Op: OpHeartbeat, Period: 0, Split: &Split{Point: PtHeartbeat, Target: 1}}, -1, prefixHB(true)},
 		{Step{Op: OpHeartbeat, Period: 0, Split: &Split{Point: PtWHeartbeat, Target: 1}}, -1, prefixHB(false)},
+		{Step{Op: OpSubscribe, Sub: 3, Conn: 3, Key: 2, StartMode: StartErr, Split: &Split{Point: PtWFlush, Target: 3}}, 2, nil},
+		{Step{Op: OpSubscribe, Sub: 3, Conn: 3, Key: 2, Hook: HookFail, Split: &Split{Point: PtWFlush, Target: 3}}, 2, nil},
+		{Step{Op: OpReleaseStart, Period: 2, Err: true, Split: &Split{Point: PtWFlush, Target: 3}}, 2, prefixBlocked},
+		{Step{Op: OpReleaseStart, Period: 2, Err: true, Split: &Split{Point: PtWFlush, Target: 4}}, 2, prefixBlocked},
 		{Step{Op: OpSubscribe, Sub: 3, Conn: 3, Key: 2, Split: &Split{Point: PtStart}}, 2, nil},
 		{Step{Op: OpSubscribe, Sub: 3, Conn: 3, Key: 2, Split: &Split{Point: PtInit}}, 2, nil},
 		{Step{Op: OpSubscribe, Sub: 3, Conn: 3, Key: 2, Hook: HookEmit, StartMode: StartBlock, Split: &Split{Point: PtStart}}, 2, nil},
@@ -68,15 +76,25 @@ func EnumHistories() []History {
 	}
 	var out []History
 	for _, p := range parents {
-		nextSub := 3
+		nextSub := 0
+		pre := prefix
+		if p.prefix != nil {
+			pre = p.prefix
+		}
+		for _, st := range pre {
+			if st.Op == OpSubscribe {
+				nextSub++
+			}
+		}
 		if p.st.Op == OpSubscribe {
-			nextSub = 4
+			nextSub++
 		}
 		nested := []stepMaker{
 			fixed(Step{Op: OpUnsubscribe, Sub: 0}),
 			fixed(Step{Op: OpUnsubscribe, Sub: 1}),
 			fixed(Step{Op: OpUnsubscribe, Sub: 2}),
 			needsSub(3, Step{Op: OpUnsubscribe, Sub: 3}),
+			needsSub(4, Step{Op: OpUnsubscribe, Sub: 4}),
 			fixed(Step{Op: OpRemoveClient, Conn: 1}),
 			fixed(Step{Op: OpRemoveClient, Conn: 2}),
 			fixed(Step{Op: OpRemoveClient, Conn: 3}),
@@ -129,6 +147,10 @@ func EnumHistories() []History {
 				h.Steps = append(h.Steps, prefix...)
 			}
 			h.Steps = append(h.Steps, st)
+			if p.period >= 0 {
+				// whatever happened to the parent's trigger: a later subscriber of its key is served
+				h.Steps = append(h.Steps, Step{Op: OpSubscribe, Sub: next, Conn: 3, Key: 2, Filter: FIn1})
+			}
 			h.Steps = append(h.Steps, suffix...)
 			out = append(out, h)
 		}
